@@ -45,7 +45,7 @@ theorem exact_gen (prim : Bool) :
   -- what a satisfying completion looks like
   have ana : ∀ σ', AgreeBelow base σ σ' →
       SatFrag base { decls := List.replicate (5 * ((H + 1) * (W + 1))) .bool ++ avc.decls,
-                     cs := localCs H W base sc ++ avc.cs } σ' →
+                     cs := localCs H W base sc (dE H W) ++ avc.cs } σ' →
       segActive (Frame.fresh 0 H W) σ' = act ∧ DegreeRules H W act sc ∧ Forced H W base act σ' ∧
         SatFrag (base + 5 * ((H + 1) * (W + 1))) avc σ' := by
     intro σ' hag hsat
